@@ -30,6 +30,10 @@ def jobs(tier):
     for sh in b["shapes"]:
         for leaf in b["leaves"]:
             out.append({"name": "%s/%s" % (sh, leaf), "shape": sh, "leaf": leaf, "depth": b["depth"], "tier": tier})
+    if tier != "thorough":
+        for leaf in W.option_leaves():
+            for sh in ("flat", "cfglist"):
+                out.append({"name": "%s/%s" % (sh, leaf), "shape": sh, "leaf": leaf, "depth": b["depth"], "tier": tier})
     return out
 
 
